@@ -8,4 +8,11 @@
 pub mod common;
 pub mod arith8;
 pub mod tofixed;
+pub mod round8;
+pub mod rem8;
+pub mod cmp8;
+pub mod conv8;
+pub mod wrap8;
+pub mod codec;
+pub mod transc;
 pub mod float;
